@@ -638,7 +638,7 @@ class C16(PropCheck):
     id = 'C16'
     extractors = (pdf_tags.generate,)
     modules = ('WpModel.Props.C16', 'WpModel.Props.C16File', 'WpModel.Props.C16More', 'WpModel.Props.C16Fonts',
-               'WpModel.Props.C16Cache', 'WpModel.Props.C16Gradient', 'WpModel.Props.C16Background',
+               'WpModel.Props.C16Cache', 'WpModel.Props.C16Gradient', 'WpModel.Props.C16Background', 'WpModel.Props.C16UaLinks',
                'WpModel.Witness.C16')
     trusted_base = (
         'modelled, not verified: pdf/stream.py Stream (operator state machine, caches, peepholes, resource '
@@ -702,6 +702,19 @@ class C16(PropCheck):
             what = document_problem(html, opts)
             sec.add(sx.line('check', [], [], [], [], [], [], [], []), 'ok' if what is None else f'{label}: {what}',
                     meta={'html': html, 'options': opts, 'family': label}, tags=['family:' + label.split(':')[0]])
+        for label, html in (('ualinks:three-pages', PAGE_CSS + SEQUENCE_BODY),
+                            ('ualinks:lists', PAGE_CSS + '<ul><li><a href="#x">a</a> <a href="https://example.org/">b</a>'
+                             '</li><li id="x">c <a href="#x" style="display:block">d</a></li></ul>'),
+                            ('ualinks:none', PAGE_CSS + '<p>no link</p>')):
+            # Model/PdfUaLinks on fixed tagged documents (the random documents are compared in document-ualinks)
+            with apilog.recording() as recorder:
+                _, data = render_pdf(html, {'pdf_variant': 'pdf/ua-1'})
+            wire_pages = [[[key, int(box.link_annotation.reference.split()[0])
+                            if key == 'Link' and getattr(box, 'link_annotation', None) is not None else 0]
+                           for key, box in stream.marked] for stream in page_stream_objects(recorder)]
+            sec.add(sx.line('ualinks', *wire_pages), ua_link_facts(pdfread.Document(data)),
+                    meta={'html': html, 'options': {'pdf_variant': 'pdf/ua-1'}, 'family': label},
+                    tags=['family:ualinks'])
         for label, html, steps in sequence_family():
             what = sequence_problem(html, steps)
             sec.add(sx.line('check', [], [], [], [], [], [], [], []), 'ok' if what is None else f'{label}: {what}',
@@ -886,6 +899,13 @@ class C16(PropCheck):
             'layer (image None or empty, repeat, unbounded) and the document state; what `layer.image.draw` does is '
             'replayed (gradients through Model/GradientDraw); all streams and resource dictionaries compared. '
             'non-trivial = a repeated (pattern) layer, or more than one layer on one stream')
+        sec_ua = run.section(
+            'document-ualinks',
+            'the pdf/ua-1 runs against Model/PdfUaLinks: from the real page streams (`marked`: structure type and, for a '
+            'Link, the object number of box.link_annotation) the model gives the annotation of every /OBJR, the '
+            '/ParentTree entries of the annotations, their /StructParent numbers and how many /OBJR are a kid of a '
+            'structure element (none: finding objr-not-in-structure-tree); compared with the same facts read from the '
+            'written bytes. non-trivial = the document has a link annotation in marked content')
         sec_fonts = run.section(
             'document-fonts',
             'the same runs, fonts: the keys of the /Font dictionary of the written PDF, in order (independent reader), '
@@ -991,6 +1011,14 @@ class C16(PropCheck):
                 sec.add(check_line(ops, cats), 'ok', meta=dict(meta, stream=label), nontrivial=bool(skeleton),
                         tags=[f'variant:{variant}', f'stream:{kind}',
                               'compressed' if not opts['uncompressed_pdf'] else 'uncompressed'])
+            if recorder is not None and variant == 'pdf/ua-1':
+                wire_pages = [[[key, int(box.link_annotation.reference.split()[0])
+                                if key == 'Link' and getattr(box, 'link_annotation', None) is not None else 0]
+                               for key, box in stream.marked] for stream in page_stream_objects(recorder)]
+                facts = ua_link_facts(pdf)
+                has_links = not facts.startswith('objr= ')
+                sec_ua.add(sx.line('ualinks', *wire_pages), facts, meta=meta, nontrivial=has_links,
+                           tags=['ua:links' if has_links else 'ua:no-link', f'ua:pages{min(len(wire_pages), 3)}'])
             # fonts: /Font keys and undefined Tf names
             fonts = list(document.fonts.values())
             used, undefined, font_keys = [], [], None
@@ -1166,6 +1194,7 @@ class C16(PropCheck):
         replays = {name: (lambda name=name: crash_replay(name)) for name in CRASH_INPUTS}
         replays['pattern-zero-step'] = pattern_zero_step_replay
         replays['mcid-in-group-stream'] = mcid_in_group_replay
+        replays['objr-not-in-structure-tree'] = objr_not_in_tree_replay
         return replays
 
     def replay(self, data):
@@ -1330,6 +1359,49 @@ def embedded_files_regression():
     if keys != [b'a', b'a b', b'a(', b'aA']:
         return f'/EmbeddedFiles keys of the attachments `a b`, `a`, `aA`, `a(` are {keys!r}, sorted by bytes: a, a b, a(, aA'
     return None
+
+
+def page_stream_objects(recorder):
+    """The page streams of a recorded run: the streams `generate_pdf` created itself (marked by the recorder when it
+    logs `newpage`), in page order."""
+    return [s for s in recorder.streams if getattr(s, '_verif_page', False)]
+
+
+def ua_link_facts(pdf):
+    """From the bytes of a tagged PDF: the annotation of every /OBJR (object order = creation order), the /ParentTree
+    entries that lead to an /OBJR (key:annotation), /StructParent of those annotations (annotation:key), and how many
+    /OBJR dictionaries are a kid (/K) of some structure element."""
+    objrs = [(number, obj) for number, obj in sorted(pdf.objects.items())
+             if isinstance(obj, dict) and obj.get('Type') == 'OBJR']
+    annots = [tuple(obj['Obj'])[0] for _, obj in objrs]
+    root = pdf.resolve(pdf.catalog.get('StructTreeRoot'))
+    tree = pdf.resolve(root.get('ParentTree')) if isinstance(root, dict) else None
+    nums = pdf.resolve(tree.get('Nums')) if isinstance(tree, dict) else []
+    entries = []
+    for key, value in zip(nums[::2], nums[1::2]):
+        entry = pdf.resolve(value)
+        if isinstance(entry, dict) and entry.get('Type') == 'OBJR':
+            entries.append(f'{key}:{tuple(entry["Obj"])[0]}')
+    parents = []
+    for annot in annots:
+        parents.append(f'{annot}:{pdf.resolve(pdfread.Ref(annot, 0)).get("StructParent")}')
+    objr_keys = {number for number, _ in objrs}
+    kids = 0
+    for obj in pdf.objects.values():
+        if isinstance(obj, dict) and obj.get('Type') == 'StructElem':
+            k = obj.get('K')
+            for kid in (k if isinstance(k, list) else [k]):
+                if (isinstance(kid, pdfread.Ref) and tuple(kid) in objr_keys) or (
+                        isinstance(kid, dict) and kid.get('Type') == 'OBJR'):
+                    kids += 1
+    return f'objr={",".join(map(str, annots))} nums={",".join(entries)} sp={",".join(parents)} kids={kids}'
+
+
+def objr_not_in_tree_replay():
+    """pdf/ua-1 with one internal link: is the /OBJR still a kid of no structure element?"""
+    _, data = render_pdf(PAGE_CSS + '<p><a href="#n">n</a></p><p id="n">n</p>', {'pdf_variant': 'pdf/ua-1'})
+    facts = ua_link_facts(pdfread.Document(data))
+    return facts.startswith('objr=') and not facts.startswith('objr= ') and facts.endswith('kids=0')
 
 
 def mcid_in_group_replay():
